@@ -151,6 +151,12 @@ func (d *decoderState) reset(b []byte, r io.Reader, opts ...Options) {
 	d.decodeBuffer = decodeBuffer{buf: b, rd: r}
 	opts2 := jsonopts.Struct{} // avoid mutating d.Struct in case it is part of opts
 	opts2.Join(opts...)
+	if opts2.Flags.Get(jsonflags.WithinArshalCall) {
+		// The options stem from the Options method of another coder that is
+		// being used within a user-defined marshal or unmarshal call.
+		// Flags that track the state of that call do not apply to this coder.
+		opts2.Flags.Clear(jsonflags.WithinArshalCall | jsonflags.OmitTopLevelNewline)
+	}
 	d.Struct = opts2
 }
 
